@@ -2,7 +2,7 @@
 
 from ..isa import Isa
 from ..encoding import Instruction, Syntax, Operand
-from .registers import RiscvRegister
+from .registers import RiscvRegister, LR
 from .tokens import RiscvToken, RiscvcToken
 from .rvc_relocations import BcImm11Relocation, BcImm8Relocation
 from .rvc_relocations import CBImm11Relocation, CBlImm11Relocation
@@ -57,7 +57,7 @@ class OpcRegReg(RiscvcInstruction):
 
 
 def makec_regreg(mnemonic, func):
-    rd = Operand("rd", RiscvRegister, write=True)
+    rd = Operand("rd", RiscvRegister, read=True, write=True)
     rn = Operand("rn", RiscvRegister, read=True)
     syntax = Syntax(["c", ".", mnemonic, " ", rd, ",", " ", rn])
     members = {"syntax": syntax, "rd": rd, "rn": rn, "func": func}
@@ -71,7 +71,7 @@ CAnd = makec_regreg("and", 0b11)
 
 
 class CSlli(RiscvcInstruction):
-    rd = Operand("rd", RiscvRegister, write=True)
+    rd = Operand("rd", RiscvRegister, read=True, write=True)
     rs = Operand("rs", RiscvRegister, read=True)
     imm = Operand("imm", int)
     syntax = Syntax(["c", ".", "slli", " ", rd, ",", " ", rs, ",", " ", imm])
@@ -103,7 +103,7 @@ class CiBase(RiscvcInstruction):
 
 
 def makec_i(mnemonic, func):
-    rd = Operand("rd", RiscvRegister, write=True)
+    rd = Operand("rd", RiscvRegister, read=True, write=True)
     rs = Operand("rs", RiscvRegister, read=True)
     imm = Operand("imm", int)
     syntax = Syntax(["c", ".", mnemonic, " ", rd, ",", " ", rs, ",", " ", imm])
@@ -117,7 +117,7 @@ CAndi = makec_i("andi", 0b10)
 
 
 class CAddi(RiscvcInstruction):
-    rd = Operand("rd", RiscvRegister, write=True)
+    rd = Operand("rd", RiscvRegister, read=True, write=True)
     imm = Operand("imm", int)
     syntax = Syntax(["c", ".", "addi", " ", rd, ",", " ", rd, ",", " ", imm])
 
@@ -187,6 +187,7 @@ class CJal(RiscvcInstruction):
     """c.jal instruction."""
 
     target = Operand("target", str)
+    implicit_defs = (LR,)
     syntax = Syntax(["c", ".", "jal", " ", target])
 
     def encode(self):
@@ -261,6 +262,7 @@ class CBlr(PseudoRiscvInstruction):
 
 class CJalr(RiscvcInstruction):
     rs1 = Operand("rs1", RiscvRegister, read=True)
+    implicit_defs = (LR,)
     syntax = Syntax(["c", ".", "jalr", " ", rs1])
 
     def encode(self):
